@@ -60,13 +60,30 @@ Clause -> case family
                                              fam=hist    mode changes inside histories
                                              (cached 0x6502, cyclic RPDO)
 
+  "... brings a standard-conformant drive into that state in finitely many steps"
+   when one step is not confirmed at the first attempt
+                                             fam=pair / hist with "late": n - the n-th
+                                             commanded transition of the assignment takes
+                                             the drive longer than the library's per-step
+                                             limit (LateDrive; it is complete when the
+                                             library repeats the command): every (state,
+                                             commandable target) x step 1..4 x statusword
+                                             by SDO / by a periodic TPDO whose bus cycle
+                                             has a real length (TimedCondition), all three
+                                             state time-outs canopen's own; histories with
+                                             a late step in several assignments
+
 Excluded by construction (counted, genuine defect of the unchanged tree, see
 EXCL_EVT): D-C19-3 statusword in an event-driven TPDO that was received twice
 (counts as periodic) + automatic transition 1 / 14 pending when a commandable
 target is assigned.  (D-C19-1 automatic transition between two status reads and
 D-C19-2 fault reset without a rising edge of bit 7 are repaired and searched.)
 Not covered: targets outside the 8 states ('DISABLE VOLTAGE', arbitrary strings);
-faults occurring *during* an assignment; homing; the op_mode getter; a silent
+faults occurring *during* an assignment; frames lost on the bus (the property names no bus
+faults; for the library a lost controlword frame looks like the late transition that is
+covered); more than one late transition in one assignment (the library's overall limit
+is two per-step limits); late transitions with event-driven statusword TPDOs (D-C19-3)
+or a cyclic RPDO task; homing; the op_mode getter; a silent
 synchronous TPDO in front of the carrier together with k > 0 or a timer-only
 carrier (the library waits for the first TPDO that maps the statusword).
 """
@@ -101,9 +118,16 @@ RULE = ("decode: every 16-bit statusword, delivered by SDO read of 0x6041 or in 
         "oracle = independent mode -> (code, bit) table, writes to 0x6060 seen by the drive. hist: enumerated "
         "short histories on one node object (state x first target x second target; assignment, fault, assignment; "
         "every ordered pair of modes x which of the two the drive advertises) and Hypothesis "
-        "histories of assignments, faults (transition 13) and mode changes on one drive. Non-trivial: decode "
+        "histories of assignments, faults (transition 13) and mode changes on one drive. late: every (state, "
+        "commandable target) x n in 1..4 x transport (SDO; RPDO + SDO status; periodic TPDO with a bus cycle of "
+        "10 ms real time, a wait shorter than the time to the next cycle receives nothing) where the n-th "
+        "commanded transition of the assignment is performed late (not within canopen's per-step limit; done "
+        "when the command is repeated, at the latest 0.7 s after it) - quick: one n and one transport per pair - "
+        "and histories with such a step in three of four assignments on one node object; canopen's own "
+        "TIMEOUT_CHECK_TPDO / _SWITCH_STATE_SINGLE / _SWITCH_STATE_FINAL; same oracle as pair (target reached, no "
+        "exception, operation not enabled on the way). Non-trivial: decode "
         "= word other than the 8 bare state values; pair = needs >= 2 transitions, involves an automatic "
-        "transition or must be refused; mode = always; hist = >= 2 effective operations. Distinct = "
+        "transition, meets a late transition or must be refused; mode = always; hist = >= 2 effective operations. Distinct = "
         "canonical JSON of the case.")
 ASSUMPTIONS = [
     "the drive reacts to a controlword at once; automatic transitions (0/1, 14, and 12 for quick-stop option "
@@ -134,6 +158,17 @@ ASSUMPTIONS = [
     "cyclic variants: PdoMap.receive_condition (public attribute) is replaced by a lock-step stand-in whose "
     "wait() lets one bus cycle of the drive pass; the threaded variant (free) keeps canopen's Condition and is "
     "only used when no automatic transition can be pending, so the outcome is interleaving-independent",
+    "late transition: CiA 402 sets no time limit for a commanded transition, so a drive that needs longer than "
+    "canopen's per-step limit (TIMEOUT_SWITCH_STATE_SINGLE) for ONE transition of an assignment is conformant; the "
+    "property's 'finitely many steps' is read as: the step may be repeated, and the drive is in the target state "
+    "within canopen's own overall limit (TIMEOUT_SWITCH_STATE_FINAL = two per-step limits, counted while no step "
+    "succeeds). The lateness is modelled without a race against this process's speed: the transition is complete "
+    "when the master's next controlword arrives (the unchanged library repeats the command after the per-step "
+    "limit, i.e. at half the overall limit: 2x slack) or 0.7 s after the command, whichever is first. Only one "
+    "late transition per assignment, none with event-driven statusword TPDOs (D-C19-3) or level-evaluating drives",
+    "periodic TPDO with a real bus period (late-transition cases): a wait_for_reception whose time-out is at least "
+    "the time to the next cycle always receives a TPDO (no time-out can be caused by this process being slow); a "
+    "shorter one receives nothing - that is what a periodic TPDO is",
     "both drive styles are accepted as conformant: commands acting on reception of the controlword, or the "
     "latched controlword evaluated again in every new state (lvl); fault reset is edge-triggered in both",
 ]
@@ -183,6 +218,105 @@ class SetupFailed(Exception):
     """The library raised while the node object was being set up against a conformant drive."""
 
 
+# ---- a drive that performs one commanded transition late ---------------------------
+# transports of the late-transition cases: statusword by SDO or by a periodic TPDO, controlword by SDO
+# or by an event-driven RPDO (event-driven statusword TPDOs: D-C19-3 / EXCL_EVT applies to every wait;
+# cyclic RPDO task: the repeated command cannot be told from the stream)
+LATE_TRANSPORTS = ("sdo", "cw", "cyc")
+LATE_PERIOD = 0.01      # seconds between two bus cycles in the cyclic late-transition cases
+
+
+def _has_late(case):
+    return bool(case.get("late")) or any(op.get("late") for op in case.get("ops", ()))
+
+
+class LateDrive(R.RefDrive402):
+    """A conformant drive one of whose commanded transitions takes its time (CiA 402 sets no limit:
+    brake release, DC link charging): the n-th commanded transition after arm_late(n) is not
+    performed on reception of its controlword but is complete - at the latest - when the master's next
+    controlword arrives, or LATE_AFTER seconds after the command, whichever comes first.  Until then the
+    statusword shows the old state.  For the library this is a drive that is slower than
+    TIMEOUT_SWITCH_STATE_SINGLE and faster than TIMEOUT_SWITCH_STATE_FINAL, without the outcome
+    depending on how fast this process runs: the unchanged library repeats the command after the step
+    limit, and by then the transition is done."""
+
+    LATE_AFTER = 0.7
+    late_arm = None
+    late_pending = None
+    late_used = 0
+    _deferring = False
+    _deferred = False
+
+    def arm_late(self, n):
+        self.late_arm = n
+        self.late_used = 0
+
+    def disarm_late(self):
+        self.late_arm = None
+        self._complete_late()
+
+    def _enter(self, state, cause):
+        if self._deferring and self.late_arm is not None and cause[:1] == "t" and cause != "t13":
+            self.late_arm -= 1
+            if self.late_arm <= 0:
+                self.late_arm = None
+                self._deferred = True
+                return
+        R.RefDrive402._enter(self, state, cause)
+
+    def _command(self, cw, prev, sfx):
+        self._complete_late()
+        if self.late_arm is None:
+            return R.RefDrive402._command(self, cw, prev, sfx)
+        self._deferring, self._deferred = True, False
+        try:
+            R.RefDrive402._command(self, cw, prev, sfx)
+        finally:
+            self._deferring = False
+        if self._deferred:
+            self._deferred = False
+            self.late_pending = (cw, prev, time.monotonic())
+            self.late_used += 1
+
+    def _complete_late(self):
+        p, self.late_pending = self.late_pending, None
+        if p is not None:
+            R.RefDrive402._command(self, p[0], p[1], "+late")
+
+    def observe(self):
+        p = self.late_pending
+        if p is not None and time.monotonic() - p[2] >= self.LATE_AFTER:
+            self._complete_late()
+        R.RefDrive402.observe(self)
+
+
+class TimedCondition(R.LockstepCondition):
+    """Lock-step stand-in for PdoMap.receive_condition with a bus cycle of a real length: the next
+    cycle (SYNC, TPDOs) is due ``period`` seconds after the last one.  wait(timeout) sleeps until it
+    is due and lets it take place - unless the timeout ends before, then it sleeps that long and nothing
+    is received.  A wait of at least one period always sees a TPDO, however slow this process is."""
+
+    def __init__(self, on_cycle, period):
+        R.LockstepCondition.__init__(self, on_cycle)
+        self.period = period
+        self.due = time.monotonic() + period
+
+    def tick(self):
+        self.due = time.monotonic() + self.period
+        self.on_wait()
+
+    def wait(self, timeout=None):
+        self.waits += 1
+        left = self.due - time.monotonic()
+        if timeout is not None and timeout < left:
+            time.sleep(max(timeout, 0))
+            return False
+        if left > 0:
+            time.sleep(left)
+        self.tick()
+        return True
+
+
 class Rig:
     def __init__(self, case, start=R.SOD, force_sw=None):
         from canopen.profiles.p402 import BaseNode402
@@ -201,10 +335,15 @@ class Rig:
             if layout in SILENT_FIRST or case.get("evt"):
                 raise BadCase(f"k={k} with transport {tr}, layout {layout}, evt {case.get('evt')}")
             thread = "evstep"
+        late = _has_late(case)
+        if late and (tr not in LATE_TRANSPORTS or case.get("lvl") or case.get("cw_latency")
+                     or case.get("qs", "stay") != "stay"):
+            raise BadCase(f"late transition with transport {tr} / lvl / cw_latency / qs=auto")
         self.tr = tr
         self.thread_mode = thread
         self.hub = Hub()
-        self.drive = R.RefDrive402(
+        self.timed = None
+        self.drive = (LateDrive if late else R.RefDrive402)(
             NODE, start=start, k=k, extras=case.get("extras", [0]), qs=case.get("qs", "stay"),
             cw0=case.get("cw0", 0), supported=case.get("supported", 0), display=case.get("display0", 0),
             kmode=case.get("kmode", 0), layout=layout, tpdo_tt=tpdo_tt, rpdo_tt=rpdo_tt,
@@ -226,7 +365,9 @@ class Rig:
         else:
             # single-threaded: a frame that has not arrived when the library starts to wait never
             # will; the state time-outs keep canopen's values (0.4 s / 0.8 s)
-            node.TIMEOUT_CHECK_TPDO = 0.001
+            if not late:
+                # (late transitions: all three state time-outs stay canopen's own, see LateDrive)
+                node.TIMEOUT_CHECK_TPDO = 0.001
             node.TIMEOUT_SWITCH_OP_MODE = 0.05
         if case.get("cw_latency"):
             # a drive that takes its time for every transition, but far less than the per-step limit:
@@ -288,7 +429,13 @@ class Rig:
         self.drive.tpdo_sent.clear()
         for _ in range(case.get("announce", 1)):
             self.drive.announce()
-        if thread == "lockstep":
+        if thread == "lockstep" and late:
+            # the bus cycle has a real period: a wait shorter than the time to the next cycle sees no TPDO
+            self.timed = TimedCondition(self._bus_cycle, LATE_PERIOD)
+            for m in node.tpdo.values():
+                if m.enabled:
+                    m.receive_condition = self.timed
+        elif thread == "lockstep":
             for m in node.tpdo.values():
                 if m.enabled:
                     m.receive_condition = R.LockstepCondition(self.cycle)
@@ -302,8 +449,14 @@ class Rig:
             self.feeder = R.Feeder(self.drive, self.hub)
             self.feeder.start()
 
-    def cycle(self):
+    def _bus_cycle(self):
         self.drive.clock_tick(self.hub.live_tasks())
+
+    def cycle(self):
+        if self.timed is not None:
+            self.timed.tick()
+        else:
+            self._bus_cycle()
 
     def settle(self):
         """Let one bus cycle pass between two user actions (cyclic variants)."""
@@ -326,11 +479,14 @@ class Rig:
 
 
 # ---------------------------------------------------------------------------------
-def _assign(rig, target, D, tag):
+def _assign(rig, target, D, tag, late=None):
     """node.state = target, judged against the reference drive.  Returns a dict of
-    facts for classification, or the string 'excluded:<reason>'."""
+    facts for classification, or the string 'excluded:<reason>'.  late = n: the n-th
+    commanded transition of this assignment is a late one (LateDrive)."""
     drive = rig.drive
     pre = drive.state
+    if late:
+        drive.arm_late(late)
     n_cw = len(drive.controlwords)
     n_en = drive.enables
     n_tr = len(drive.trace)
@@ -346,6 +502,11 @@ def _assign(rig, target, D, tag):
     how = f"{tag}: from {pre} (k={drive.k}) to {target}: controlwords " \
           f"{_brief([hex(c) for c, _v in cws])}, drive went {_brief([R.SHORT[s] + '/' + c for s, c in steps])}, " \
           f"ends in {drive.state}"
+    late_used = bool(late) and drive.late_used > 0
+    if late_used:
+        how += (f" (commanded transition no. {late} of this assignment was late: longer than the library's "
+                f"per-step limit, complete when the command was repeated / after {drive.LATE_AFTER} s"
+                f"{'; still pending' if drive.late_pending else ''})")
     if exc is not None:
         how += f", raised {type(exc).__name__}: {exc}"
     if isinstance(exc, R.Livelock):
@@ -383,7 +544,9 @@ def _assign(rig, target, D, tag):
     if drive.bad_access:
         D.append(Discrepancy("C19/access", f"{how} - drive saw {drive.bad_access[:3]}"))
     autos = sum(1 for _s, c in steps if c.startswith("auto"))
-    return {"pre": pre, "ncw": len(cws), "nsteps": len(steps) - autos, "autos": autos}
+    if late:
+        drive.disarm_late()
+    return {"pre": pre, "ncw": len(cws), "nsteps": len(steps) - autos, "autos": autos, "late": late_used}
 
 
 # statusword observations of a drive that is not in the (uncommandable) target state after which
@@ -431,13 +594,17 @@ def run_pair(case):
         if _evt_excluded(rig, target) and not case.get("no_excl"):
             return Outcome(excluded=EXCL_EVT)
         D = []
-        facts = _assign_k(rig, target, D, "pair")
+        facts = _assign_k(rig, target, D, "pair", case.get("late"))
         if rig.feeder is not None and rig.feeder.error is not None:
             raise rig.feeder.error
     finally:
         rig.close()
     kind = _pair_kind(start, target, facts, case.get("k", 0))
     nontrivial = kind not in ("same", "direct", "refuse-noop", "auto-only")
+    if case.get("late"):
+        # a late step that the route of the library does not have: an ordinary assignment
+        kind = f"late-step-{min(case['late'], 4)}/{kind}" if facts["late"] else f"late-unused/{kind}"
+        nontrivial = nontrivial or facts["late"]
     return Outcome(nontrivial, f"pair/{TR_GROUP[case['tr']]}/{kind}", D)
 
 
@@ -454,12 +621,12 @@ def _edge_known(rig, target):
             and bool(rig.drive.last_cw & 0x80) and target in R.COMMANDABLE)
 
 
-def _assign_k(rig, target, D, tag):
+def _assign_k(rig, target, D, tag, late=None):
     """_assign, with the discrepancy of the known finding re-labelled so that it is
     matched by its own entry and nothing else is."""
     known = _edge_known(rig, target)
     n = len(D)
-    facts = _assign(rig, target, D, tag)
+    facts = _assign(rig, target, D, tag, late)
     if known and len(D) == n + 1 and D[n].signature == "C19/assign/raises/RuntimeError":
         D[n].signature = KNOWN_EDGE_SIG
     return facts
@@ -639,10 +806,12 @@ def run_hist(case):
                     return Outcome(excluded=EXCL_EVT)
                 if op["target"] == R.QSA and rig.drive.qs == "auto":
                     raise BadCase("target QSA with qs=auto")
-                facts = _assign_k(rig, op["target"], D, tag)
+                facts = _assign_k(rig, op["target"], D, tag, op.get("late"))
                 if facts["nsteps"] or op["target"] in R.UNCOMMANDABLE:
                     effective += 1
                 kinds.add("set")
+                if facts["late"]:
+                    kinds.add("late")
             elif op["op"] == "fault":
                 rig.drive.fault()
                 rig.settle()
@@ -673,12 +842,21 @@ def run_hist(case):
     finally:
         rig.close()
     return Outcome(effective >= 2, f"hist/{TR_GROUP[case['tr']]}/"
-                                   f"{'with-fault' if 'fault' in kinds else 'no-fault'}", D)
+                                   f"{'with-fault' if 'fault' in kinds else 'no-fault'}"
+                                   f"{'/late-step' if 'late' in kinds else ''}", D)
 
 
 def run_case(case) -> Outcome:
     try:
-        return _run_case(case)
+        out = _run_case(case)
+        if _has_late(case) and getattr(out, "discrepancies", None):
+            # late-transition cases run against canopen's own (real-time) limits: a verdict there must not be
+            # an accident of this process having been starved of CPU - it has to reproduce twice more
+            for _ in range(2):
+                again = _run_case(case)
+                if not getattr(again, "discrepancies", None):
+                    return again
+        return out
     except SetupFailed as e:
         return Outcome(True, f"{case['fam']}/setup-failed", [Discrepancy("C19/setup", str(e))])
 
@@ -857,6 +1035,80 @@ def seq_cases(tier):
                 i += 1
 
 
+# commanded transitions of the CiA 402 automaton (2..12, 15, 16; written from the standard's figure) and
+# the automatic ones (1, 14): only used to estimate how many commanded steps an assignment has at least,
+# so that the quick tier does not spend its late-transition cases on step numbers no route has
+_CMD_EDGES = {R.SOD: [R.RTSO], R.RTSO: [R.SO, R.SOD], R.SO: [R.OE, R.RTSO, R.SOD],
+              R.OE: [R.SO, R.RTSO, R.SOD, R.QSA], R.QSA: [R.SOD, R.OE], R.FAULT: [R.SOD],
+              R.NRTSO: [], R.FRA: []}
+_AUTO_EDGE = {R.NRTSO: R.SOD, R.FRA: R.FAULT}
+
+
+def _min_steps(start, target):
+    start = _AUTO_EDGE.get(start, start)
+    dist, todo = {start: 0}, [start]
+    while todo:
+        s = todo.pop(0)
+        for nxt in _CMD_EDGES[s]:
+            if nxt not in dist:
+                dist[nxt] = dist[s] + 1
+                todo.append(nxt)
+    return dist[target]
+
+
+def late_cases(tier):
+    """Every (state, commandable target) pair with one commanded transition of the assignment performed
+    late (step 1..4 of the route the library takes), statusword by SDO / by a periodic TPDO, controlword
+    by SDO / by an event-driven RPDO.  thorough: all of them; quick: one step number and one transport
+    per pair, rotating."""
+    j = 0
+    for start in R.STATES:
+        for target in R.COMMANDABLE:
+            if start == target or (start == R.NRTSO and target == R.SOD):
+                continue
+            j += 1
+            least = _min_steps(start, target)
+            for n in (1, 2, 3, 4):
+                for ti, tr in enumerate(LATE_TRANSPORTS):
+                    if tier != "thorough" and (n != 1 + (j // 3) % min(least, 3) or ti != j % 3):
+                        continue
+                    layouts = TRANSPORTS[tr][0]
+                    case = {"fam": "pair", "tr": tr, "start": start, "target": target, "k": 0,
+                            "extras": EXTRAS[(j + n) % len(EXTRAS)], "qs": "stay",
+                            "layout": layouts[(j + n) % len(layouts)],
+                            "setup": "manual" if (j + n) % 2 else "read", "late": n,
+                            "cw0": CW_CONSISTENT[start][j % len(CW_CONSISTENT[start])]}
+                    if tr == "sdo":
+                        case["od_pdo"] = bool(j % 2)
+                    yield case
+
+
+def late_hist_cases(tier):
+    """Histories on one node object in which several assignments each meet one late transition (every
+    assignment has its own limits), with reads of the state and ordinary assignments in between."""
+    j = 0
+    for start in (R.SOD, R.OE, R.FAULT, R.QSA, R.RTSO):
+        for t1 in R.COMMANDABLE:
+            for t2 in R.COMMANDABLE:
+                if t1 == start or t2 == t1:
+                    continue
+                j += 1
+                if tier != "thorough" and j % 16 != 3:
+                    continue
+                tr = LATE_TRANSPORTS[j % 3]
+                layouts = TRANSPORTS[tr][0]
+                yield {"fam": "hist", "tr": tr, "layout": layouts[j % len(layouts)],
+                       "setup": "manual" if (j // 2) % 2 else "read", "start": start, "k": 0,
+                       "extras": EXTRAS[j % len(EXTRAS)], "qs": "stay", "supported": 0x3EF, "display0": 0,
+                       "lvl": False, "cw0": CW_CONSISTENT[start][0],
+                       "ops": [{"op": "set", "target": t1, "late": 1 + j % min(_min_steps(start, t1), 2)},
+                               {"op": "get"},
+                               {"op": "set", "target": t2, "late": 1 + (j // 2) % min(_min_steps(t1, t2), 2)},
+                               {"op": "get"},
+                               {"op": "set", "target": t1},
+                               {"op": "set", "target": t2, "late": 1}]}
+
+
 @st.composite
 def hist_case(draw):
     tr = draw(st.sampled_from(["sdo", "sdo", "cw", "sw", "ev", "ev", "cyc", "cycr", "free"]))
@@ -956,6 +1208,12 @@ def showcase():
 def search(ctx):
     thorough = ctx.tier == "thorough"
     ctx.enumerate(showcase())
+    # bound by canopen's own time-outs (0.4 s of waiting per late step), not by this machine's speed: first, so
+    # that a run that exhausts its budget on a loaded machine has been through them
+    ctx.enumerate(late_cases(ctx.tier), "(state, commandable target) pairs x which commanded transition is late "
+                                        "(slower than the per-step limit) x statusword by SDO / periodic TPDO")
+    ctx.enumerate(late_hist_cases(ctx.tier), "histories with a late transition in several assignments on one node "
+                                             "object")
     ctx.enumerate(pair_cases(ctx.tier), "8 x 8 (state, target) pairs x transports x k x status-bit patterns")
     ctx.enumerate(mode_cases(ctx.tier), "10 operation modes x all 1024 values of bits 0..9 of 0x6502")
     ctx.enumerate(seq_cases(ctx.tier), "two assignments / assignment, fault, assignment / two mode changes on one "
